@@ -227,6 +227,99 @@ def bk8(p, res):
     return n
 
 
+def bk12(p, res):
+    """Newton / Hensel lifting of an inverse modulo a power of two, x <- x * (2 - p * x): every step doubles the number of correct low bits, so a loop that stops on a test of
+    the requested width is right for every width, and a fixed number c of steps is right only up to 2^c bits - it has to reach the width of the word (64), or the function
+    has to compare its width parameter with a constant <= 2^c.  (The AVX automorphism needs p^-1 modulo 2N: 17 bits at N = 2^16.)"""
+    n = 0
+    for f in sorted(p.lib_fns(), key=lambda x: x.uid):
+        if f.is_test() or not f.blocks or not f.uid.startswith(("poulpy_cpu_avx", "poulpy_cpu_ref", "poulpy_hal")):
+            continue
+        flow = None
+        steps = []
+        for bi, t in f.calls():
+            if (f.callee_def(t) or {}).get("n") != "wrapping_mul" or len(t["a"]) != 2:
+                continue
+            flow = flow or Flow(f)
+            for k in (0, 1):
+                for r in flow.op_roots(t["a"][k]):
+                    if r[0] != "call":
+                        continue
+                    t2 = f.blocks[r[1]]["t"]
+                    if (f.callee_def(t2) or {}).get("n") == "wrapping_sub" and len(t2["a"]) == 2 and t2["a"][0][0] == "k" and t2["a"][0][1].get("v") == 2:
+                        if any(r3[0] == "call" and (f.callee_def(f.blocks[r3[1]]["t"]) or {}).get("n") == "wrapping_mul" for r3 in flow.op_roots(t2["a"][1])):
+                            steps.append(bi)
+        if not steps:
+            continue
+        n += 1
+        g = CFG(f)
+        loop = None
+        for l in g.loops():
+            if steps[0] in l["body"] and (loop is None or len(l["body"]) < len(loop["body"])):
+                loop = l
+        if loop is None:
+            res.undec("BK-12", "%s: lifting step outside a loop" % f.pretty)
+            continue
+        by_param = False
+        const_trip = None
+        for b, s2 in loop["exits"]:
+            t = f.blocks[b]["t"]
+            if not t or t["k"] != "Switch":
+                continue
+            seen = set()
+            work = list(flow.op_roots(t["o"]))
+            while work:
+                r = work.pop()
+                if r in seen:
+                    continue
+                seen.add(r)
+                if r[0] == "param":
+                    by_param = True
+                elif r[0] == "bin":
+                    for o in f.blocks[r[1]]["s"][r[2]][2]["o"]:
+                        work.extend(flow.op_roots(o))
+                elif r[0] == "other" and r[1] >= 0 and f.blocks[r[1]]["s"][r[2]][2].get("k") == "Disc":
+                    work.extend(flow.roots(f.blocks[r[1]]["s"][r[2]][2]["p"][0], tuple(f.blocks[r[1]]["s"][r[2]][2]["p"][1:])))
+                elif r[0] == "call":
+                    t2 = f.blocks[r[1]]["t"]
+                    if (f.callee_def(t2) or {}).get("n") == "next" and t2["a"]:
+                        for r2 in flow.op_roots(t2["a"][0]):
+                            if r2[0] == "call":
+                                for o in f.blocks[r2[1]]["t"]["a"]:
+                                    work.extend(flow.op_roots(o))
+                            else:
+                                work.append(r2)
+                elif r[0] == "agg":
+                    st = f.blocks[r[1]]["s"][r[2]][2]
+                    os_ = st.get("o", [])
+                    if st.get("fields") == ["start", "end"] and all(o[0] == "k" and isinstance(o[1].get("v"), int) for o in os_):
+                        const_trip = os_[1][1]["v"] - os_[0][1]["v"]
+                    else:
+                        for o in os_:
+                            work.extend(flow.op_roots(o))
+        if by_param:
+            res.ok("BK-12", {"fn": f.pretty, "steps": "until the requested width"})
+            continue
+        if const_trip is None:
+            res.undec("BK-12", "%s: the number of lifting steps is not recognised" % f.pretty)
+            continue
+        reach = 1 << min(const_trip, 7)
+        guarded = False
+        for blk in f.blocks:
+            for st in blk["s"]:
+                if st[0] == "A" and st[2]["k"] == "Bin" and st[2].get("op") in ("Le", "Lt", "Ge", "Gt"):
+                    a, b = st[2]["o"]
+                    for x, y in ((a, b), (b, a)):
+                        if y[0] == "k" and isinstance(y[1].get("v"), int) and y[1]["v"] <= reach and any(r[0] == "param" for r in flow.op_roots(x)):
+                            guarded = True
+        if reach >= 64 or guarded:
+            res.ok("BK-12", {"fn": f.pretty, "steps": const_trip, "bits": reach})
+        else:
+            res.bad("BK-12", f.pretty, "fixed-lifting-steps", "%s lifts the inverse with a fixed %d steps: correct to %d bits only, while nothing bounds the requested width (the automorphism "
+                    "needs log2(2N) bits - 17 at N = 2^16); the reference backend computes the exact permutation" % (f.pretty, const_trip, reach), site=f.where())
+    return n
+
+
 def bk11(p, res):
     """power-of-two down-scaling kernels round: in every reference kernel named *pow2* / *power_of_two* the value that is shifted right by a variable amount is the sum of the
     datum and a rounding bias (the i64 kernels add 2^(k-1) - sign); a plain arithmetic shift floors, which makes the element widths (FFT64 / NTT120 families) disagree by one
@@ -646,6 +739,7 @@ def run(res, tier):
     res.rule("BK-5", "target_feature kernels with a `len >> k` trip count have a scalar tail, a fallback to a *_ref kernel, or an explicit multiple-of-lanes check")
     res.rule("BK-7", "an AVX kernel's in-place (`*_assign_avx*`) and out-of-place forms use the same set of arithmetic / logic / compare intrinsics (loads, stores, constant set-ups ignored; a const-generic accumulate twin may add)")
     res.rule("BK-8", "where the reference kernel uses i64::wrapping_mul the AVX kernel of the same trait method does not multiply with _mm256_mul_epi32 (low 32 bits only)")
+    res.rule("BK-12", "a Hensel lifting x <- x * (2 - p * x) runs until the requested width, or a fixed number of steps that reaches the word width / an asserted bound")
     res.rule("BK-11", "reference power-of-two down-scaling kernels add a rounding bias before the right shift (i64 and i128 alike)")
     res.rule("BK-10", "NTT120 family: an i64 digit is widened to i128 before it is negated / added / subtracted (exact over the whole i64 range)")
     res.rule("BK-9", "same-name shape functions of reference::fft64 and reference::ntt120 compare a parameter against bounds that depend on the same parameters")
@@ -677,6 +771,8 @@ def run(res, tier):
         res.floor("BK-9", "same-name shape functions of the two families with parameter bounds", n9, 1)
         n11 = bk11(p, res)
         res.floor("BK-11", "power-of-two down-scaling kernels", n11, 4, ref_min=4)
+        n12 = bk12(p, res)
+        res.floor("BK-12", "modular-inverse liftings", n12, 1, ref_min=0)
         n10 = bk10(p, res)
         res.floor("BK-10", "i64 -> i128 widenings of the NTT120 family", n10, 30, ref_min=20)
         n7 = bk7(p, res)
